@@ -199,7 +199,9 @@ func (b *builder) unusualSchema(s M, allowRef bool) {
 // addExamples adds default/example values that satisfy the schema (checked by the reference
 // evaluator; dropped when no satisfying value was found).
 func (b *builder) addExamples(s M) {
-	if hasRefInside(s) {
+	if hasRefInside(s) || usesReadWrite(s) {
+		// whether an example may carry a read-only / write-only property depends on where the
+		// schema is used (request or response): keep such schemas free of examples
 		return
 	}
 	for _, kw := range []string{"default", "example"} {
